@@ -1118,6 +1118,7 @@ class Engine(object):
         if splits and split_index is not None:
             split_expr = splits[split_index]
         work = [[]]
+        cpu0 = time.process_time()
         deco = [ast.unparse(d) for d in getattr(fref.node, "decorator_list", [])
                 if ast.unparse(d).split(".")[-1] not in ("property", "setter", "staticmethod", "classmethod")]
         if deco:
@@ -1128,6 +1129,11 @@ class Engine(object):
         while work:
             decisions = work.pop()
             npaths += 1
+            if time.process_time() - cpu0 > (300 if self.timeout_ms < 60000 else 1800):     # CPU seconds: load-independent
+                # a change that multiplies the paths of a function (a fork per element, say) must not hold the whole
+                # check up: the function is undecided and falls back on its run-time contract
+                undecided.append(("budget", "path exploration of this case exceeded its time budget after %d paths" % npaths))
+                break
             if npaths > self.max_paths:
                 undecided.append(("paths", "more than %d paths" % self.max_paths))
                 break
